@@ -305,9 +305,14 @@ def build_case(rng):
     for i in range(n_dep):
         d = f'dep{i}'
         deps.append(d)
-        for _ in range(2 if rng.random() < 0.2 else 1):
+        prev_leaves = None
+        for _ in range(2 if rng.random() < 0.25 else 1):
             k = rng.choice([1, 2, 2, 3, 3, 4, 4, 5, 6])
             leaves = [leaf() for _ in range(k)]
+            if prev_leaves and len(prev_leaves) >= 2 and rng.random() < 0.5:
+                # a second arrow over the very same outputs, other operators
+                leaves = list(prev_leaves)
+            prev_leaves = leaves
             if k >= 2 and rng.random() < 0.25:
                 # the same written node twice in one expression
                 leaves[rng.randrange(k)] = rng.choice(leaves)
